@@ -43,6 +43,7 @@ type LoopSpec struct {
 	EntryAsserts []Clause // asserted at loop entry only (not invariant)
 	LabelBy    string     // expression whose literal value names the path
 	PanicSummary bool     // explore the recover handler once from the generalised mid-loop state
+	BodyEnsures []Clause  // asserted at the end of every completed iteration (facts about the element just processed)
 }
 
 type Contract struct {
@@ -62,6 +63,7 @@ type Contract struct {
 	Props    []string
 	Pure     bool
 	MayPanic bool
+	Defs     []MacroDef
 }
 
 func LoadWorld(repo string) (*World, error) {
@@ -264,6 +266,12 @@ func (w *World) parseContractFile(path string) error {
 						lb = what[j+1 : len(what)-1]
 					}
 					ls.EntryAsserts = append(ls.EntryAsserts, Clause{lb, ex})
+				case strings.HasPrefix(what, "body-ensures"):
+					lb := fmt.Sprintf("b%d", len(ls.BodyEnsures))
+					if j := strings.Index(what, "["); j >= 0 {
+						lb = what[j+1 : len(what)-1]
+					}
+					ls.BodyEnsures = append(ls.BodyEnsures, Clause{lb, ex})
 				case what == "label-by":
 					ls.LabelBy = ex
 				case what == "panic-summary":
@@ -273,6 +281,15 @@ func (w *World) parseContractFile(path string) error {
 				}
 			case "mode":
 				cur.Mode = rest
+			case "define":
+				// define name(param) := body
+				i := strings.Index(rest, ":=")
+				j := strings.Index(rest, "(")
+				k := strings.Index(rest, ")")
+				if i < 0 || j < 0 || k < j || k > i {
+					return fmt.Errorf("%s:%d: define name(param) := body", path, ln)
+				}
+				cur.Defs = append(cur.Defs, MacroDef{Name: strings.TrimSpace(rest[:j]), Param: strings.TrimSpace(rest[j+1 : k]), Body: strings.TrimSpace(rest[i+2:])})
 			case "pure":
 				cur.Pure = true
 			case "panics":
